@@ -192,9 +192,11 @@ func FormatBytes(dst []byte, src []byte, opts *Options) []byte {
 		}
 		lineLength := len(line)
 
-		// Strip any blank lines at the end of the file.
+		// Strip any blank lines at the end of the file. A blank line also ends
+		// any backslash-continued #preprocessor line.
 		if len(line) == 0 {
 			nBlankLines++
+			preproc = false
 			continue
 		}
 		if nBlankLines > 0 {
